@@ -186,6 +186,8 @@ EvReport(t, r, v, c, d, capNow) ==
                  \cup Flag(~atMs /\ d # "CONTINUE", "decide_off_milestone")               \* C04
                  \cup Flag(r > cf.maxt, "beyond_max_resource")
                  \cup Flag(capNow < cap, "cap_not_monotone") \cup Flag(capNow > cf.maxt, "cap_beyond_max")  \* C04
+                 \* PASHA expands progressively: the cap moves up one rung level at a time (the maximum resource after the last one)
+                 \cup Flag(capNow > cap /\ capNow # (IF cap \in LevelSet THEN NextLevel(cap) ELSE cf.maxt), "cap_skips_level")
                  \cup Flag(cf.type # "pasha" /\ capNow # cf.maxt, "cap_without_pasha")
             /\ thr' = thr
        ELSE LET enter == r < cf.maxt /\ r \in OwnLevels(br[t]) /\ ~InRung(t, s, r)
@@ -279,7 +281,7 @@ ContinueIffQuantile  == NoFlag("quantile_rule")
 \* C04
 PauseExactlyAtMilestone == NoFlag("pause_at_milestone") /\ NoFlag("decide_off_milestone")
 NeverBeyondCap       == NoFlag("beyond_cap") /\ NoFlag("cap_beyond_max") /\ NoFlag("cap_without_pasha")
-CapMonotone          == NoFlag("cap_not_monotone")
+CapMonotone          == NoFlag("cap_not_monotone") /\ NoFlag("cap_skips_level")
 PromoteOnlyEligible  == NoFlag("promote_ineligible") /\ NoFlag("promoted_twice") /\ NoFlag("promote_not_in_rung")
                         /\ NoFlag("promote_not_paused")
 PromoteBestOfHighest == NoFlag("not_highest_rung")
